@@ -919,3 +919,96 @@ func constructorAlwaysUsedRule(p *Prog, r *Report, id string) {
 		}
 	}
 }
+
+// ---------------------------------------------------------------------------
+// D20: doc settings of methods do not configure functions
+
+func localConfigFunctionsOnlyRule(p *Prog, r *Report, id string) {
+	r.Rule(id, "the local settings (goverter:context) of custom functions are collected from package-level function declarations only: in pkgload.localConfig every store into the per-name table happens under `<FuncDecl>.Recv == nil` — a method's doc comment never configures the function that shares its name", 1)
+	fi := p.Func("pkgload.(*PackageLoader).localConfig")
+	if fi == nil {
+		r.Unresolved("pkgload.(*PackageLoader).localConfig")
+		return
+	}
+	n := 0
+	for _, rf := range p.Region("pkgload.(*PackageLoader).localConfig") {
+		info := rf.Pkg.TypesInfo
+		walkStack(rf.Decl.Body, func(nd ast.Node, stack []ast.Node) bool {
+			as, ok := nd.(*ast.AssignStmt)
+			if !ok || len(as.Lhs) != 1 {
+				return true
+			}
+			ix, ok := ast.Unparen(as.Lhs[0]).(*ast.IndexExpr)
+			if !ok {
+				return true
+			}
+			mt, ok := info.TypeOf(ix.X).Underlying().(*types.Map)
+			if !ok || !isNamed(mt.Elem(), modPath+"/method", "LocalOpts") {
+				return true
+			}
+			n++
+			site := fmt.Sprintf("%s/table[%s] =#%d", rf.Name(), exprString(ix.Index), n)
+			okRecv := p.guardedSite(rf, stack, as, func(gi *types.Info, g Guard) bool {
+				if g.Cond == nil || g.Tag != nil {
+					return false
+				}
+				for _, cj := range disjunctsOrConjuncts(g) {
+					be, ok := ast.Unparen(cj).(*ast.BinaryExpr)
+					if !ok {
+						continue
+					}
+					x, y := ast.Unparen(be.X), ast.Unparen(be.Y)
+					if id0, ok := x.(*ast.Ident); ok && id0.Name == "nil" {
+						x, y = y, x
+					}
+					if id0, ok := y.(*ast.Ident); !ok || id0.Name != "nil" {
+						continue
+					}
+					sel, ok := x.(*ast.SelectorExpr)
+					if !ok || sel.Sel.Name != "Recv" {
+						continue
+					}
+					if (be.Op == token.EQL && !g.Neg) || (be.Op == token.NEQ && g.Neg) {
+						return true
+					}
+				}
+				return false
+			}, 1)
+			if okRecv {
+				r.OK(site, p.PosStr(as.Pos()), "only for declarations without receiver")
+			} else {
+				r.Bad(site, p.PosStr(as.Pos()), "doc settings are recorded for every FuncDecl, methods included: `goverter:context x` on a method T.F makes the parameter x of the package-level function F a context argument (it would otherwise be a source and, as a second source, rejected)")
+			}
+			return true
+		})
+	}
+	if n == 0 {
+		r.Bad("pkgload.(*PackageLoader).localConfig/table", p.PosStr(fi.Decl.Pos()), "store into the per-name settings table not found")
+	}
+}
+
+// ---------------------------------------------------------------------------
+// D21: every line of a comment is looked at
+
+func noScannerRule(p *Prog, r *Report, id string) {
+	r.Rule(id, "comment and setting text is never read through a bufio.Scanner: its 64 KiB token limit ends the scan at the first longer line without an error, so every goverter: line after it would be silently ignored (text is split with strings.Split / strings.Fields)", 1)
+	n, bad := 0, 0
+	for _, cs := range p.Calls() {
+		fn, ok := cs.Callee.(*types.Func)
+		if !ok {
+			continue
+		}
+		n++
+		if isFunc(fn, "bufio", "", "NewScanner") || isFunc(fn, "bufio", "Scanner", "Scan") {
+			bad++
+			encl := "<package init>"
+			if cs.Encl != nil {
+				encl = cs.Encl.Name()
+			}
+			r.Bad(encl+"/bufio."+fn.Name(), p.PosStr(cs.Call.Pos()), "text is scanned with a bufio.Scanner (default 64 KiB token limit, Err() unchecked): lines after an over-long line are dropped silently")
+		}
+	}
+	if bad == 0 {
+		r.OK("own code/bufio.Scanner", "", fmt.Sprintf("not used (%d call sites scanned)", n))
+	}
+}
